@@ -45,9 +45,9 @@ C20 = dict(
          "no differing field, or an exchange script of ≥ 2 entries; stub cases are counted as evaluations only. Distinct = "
          "distinct rendered cases (64-bit FNV-1a).",
     assumptions=ASSUME_PURE,
-    quick=dict(engines=[_rapid('^TestC20Mock', 40000), _rapid('^TestC20Exchange', 2400)]),
-    thorough=dict(engines=[_rapid('^TestC20Mock', 800000, shards=14, timeout=1200),
-                           _rapid('^TestC20Exchange', 42000, shards=14, timeout=1200)]),
+    quick=dict(engines=[_rapid('^TestC20Mock', 120000), _rapid('^TestC20Exchange', 4000)]),
+    thorough=dict(engines=[_rapid('^TestC20Mock', 2000000, shards=14, timeout=1200),
+                           _rapid('^TestC20Exchange', 70000, shards=14, timeout=1200)]),
 )
 
 C14B_RULE = (
@@ -69,8 +69,9 @@ C14B_RULE = (
     "deny/end (disjointness is asserted for these only, not for artificial joins of a denial with an end). Non-trivial: a "
     "tree with ≥ 1 multi-unwrap node (Join, multi-%w, custom Unwrap() []error with members); distinct = distinct rendered trees."
 )
-C14B_ENGINES_QUICK = [_rapid('^TestC14b', 160000)]
-C14B_ENGINES_THOROUGH = [_rapid('^TestC14b', 3000000, shards=14, timeout=1200)]
+C14B_ENGINES_QUICK = [_rapid('^TestC14bClassifierTrees', 1200000), _rapid('^TestC14bLibraryErrors', 16000, shards=2)]
+C14B_ENGINES_THOROUGH = [_rapid('^TestC14bClassifierTrees', 12000000, shards=14, timeout=1200),
+                         _rapid('^TestC14bLibraryErrors', 64000, shards=2)]
 
 C15_RULE = (
     "pure half: packet = 0–4 buffers (nil, empty, ≤ 3, ≤ 72, ≤ 1000 or, 1 in 400, ≤ 17 500 bytes each, i.e. 0…70 000 in "
